@@ -708,11 +708,16 @@ impl Parser {
         Ok(Item::new(joined_kind, Position::new(self.group, self.line, pos.start, params.position.end )))
     }
     
-    fn get_var_assign(&mut self, number: Token, char: &Item) -> Item {
+    fn number(&self, number: &Token) -> Result<usize, RuleSyntaxError> {
+        // the lexer only guarantees digits, not that they fit
+        number.value.parse::<usize>().map_err(|_| RuleSyntaxError::NumberTooBig(number.clone()))
+    }
+
+    fn get_var_assign(&mut self, number: Token, char: &Item) -> Result<Item, RuleSyntaxError> {
         // returns VAR_ASN ← '=' [0-9]+ 
-        let num = number.value.parse::<usize>().expect("number should be a number as set in `self.get_seg`");
+        let num = self.number(&number)?;
         let mods = char.kind.as_matrix().expect("char should be matrix as set in `self.get_group`").clone();
-        Item::new(ParseElement::Matrix(mods, Some(num)), Position::new(self.group, self.line, char.position.start, char.position.end ))
+        Ok(Item::new(ParseElement::Matrix(mods, Some(num)), Position::new(self.group, self.line, char.position.start, char.position.end )))
     }
 
     fn get_seg(&mut self) -> Result<Option<Item>, RuleSyntaxError> {
@@ -726,7 +731,7 @@ impl Parser {
                 let Some(n) = self.eat_expect(TokenKind::Number) else {
                     return Err(RuleSyntaxError::ExpectedVariable(self.curr_tkn.clone()))
                 };
-                let res =  self.get_var_assign(n, &chr);
+                let res =  self.get_var_assign(n, &chr)?;
                 return Ok(Some(res))
             }
             return Ok(Some(chr))
@@ -737,7 +742,7 @@ impl Parser {
                 let Some(n) = self.eat_expect(TokenKind::Number) else {
                     return Err(RuleSyntaxError::ExpectedVariable(self.curr_tkn.clone()))
                 };
-                let res = self.get_var_assign(n, &params);
+                let res = self.get_var_assign(n, &params)?;
                 return Ok(Some(res))
             }
             return Ok(Some(params))
@@ -748,6 +753,7 @@ impl Parser {
     fn get_var(&mut self) -> Result<Option<Item>, RuleSyntaxError> {
         // returns VAR ← [0-9]+ (':' PARAMS)? 
         let Some(t) = self.eat_expect(TokenKind::Number) else { return Ok(None) };     
+        self.number(&t)?;
         let mut pos = t.position;
         if !self.expect(TokenKind::Colon) {
             let var = Item::new(ParseElement::Variable(t, None), pos);
@@ -793,7 +799,7 @@ impl Parser {
             return Err(RuleSyntaxError::ExpectedComma(self.curr_tkn.clone()))
         }
         if let Some(number) = self.eat_expect(TokenKind::Number) {
-            first_bound = number.value.parse().unwrap();
+            first_bound = self.number(&number)?;
         }
         if self.expect(TokenKind::RightBracket) {
             let end_pos = self.token_list[self.pos-1].position.end;
@@ -803,7 +809,7 @@ impl Parser {
             return Err(RuleSyntaxError::ExpectedColon(self.curr_tkn.clone()))
         }
         if let Some(number) = self.eat_expect(TokenKind::Number) {
-            second_bound = number.value.parse().unwrap();
+            second_bound = self.number(&number)?;
             if second_bound < first_bound { 
                 return Err(RuleSyntaxError::OptMathError(number, first_bound, second_bound))
             }
@@ -865,7 +871,7 @@ impl Parser {
                 let Some(number) = self.eat_expect(TokenKind::Number) else {
                     return Err(RuleSyntaxError::ExpectedVariable(self.curr_tkn.clone()))
                 };
-                let num = number.value.parse::<usize>().unwrap();
+                let num = self.number(&number)?;
                 return Ok(Some(Item::new(ParseElement::Syllable([None, None], None, Some(num)), Position::new(self.group, self.line, start_pos, end_pos))))
             }
             return Ok(Some(Item::new(ParseElement::Syllable([None, None], None, None), Position::new(self.group, self.line, start_pos, end_pos))))
@@ -881,7 +887,7 @@ impl Parser {
             let Some(number) = self.eat_expect(TokenKind::Number) else {
                 return Err(RuleSyntaxError::ExpectedVariable(self.curr_tkn.clone()))
             };
-            let num = number.value.parse::<usize>().unwrap();
+            let num = self.number(&number)?;
             return Ok(Some(Item::new(ParseElement::Syllable(mods.suprs.stress, mods.suprs.tone, Some(num)), Position::new(self.group, self.line, start_pos, end_pos))))
         }
         Ok(Some(Item::new(ParseElement::Syllable(mods.suprs.stress, mods.suprs.tone, None), Position::new(self.group, self.line, start_pos, end_pos))))
@@ -919,7 +925,7 @@ impl Parser {
                 let Some(number) = self.eat_expect(TokenKind::Number) else {
                     return Err(RuleSyntaxError::ExpectedVariable(self.curr_tkn.clone()))
                 };
-                let num = number.value.parse::<usize>().unwrap();
+                let num = self.number(&number)?;
                 return Ok(Some(Item::new(ParseElement::Structure(terms, [None, None], None, Some(num)), Position::new(self.group, self.line, start_pos, end_pos))))
             }
             return Ok(Some(Item::new(ParseElement::Structure(terms, [None, None], None, None), Position::new(self.group, self.line, start_pos, end_pos))))
@@ -935,7 +941,7 @@ impl Parser {
             let Some(number) = self.eat_expect(TokenKind::Number) else {
                 return Err(RuleSyntaxError::ExpectedVariable(self.curr_tkn.clone()))
             };
-            let num = number.value.parse::<usize>().unwrap();
+            let num = self.number(&number)?;
             return Ok(Some(Item::new(ParseElement::Structure(terms, mods.suprs.stress, mods.suprs.tone, Some(num)), Position::new(self.group, self.line, start_pos, end_pos))))
         }
 
